@@ -73,6 +73,15 @@ def generate(repo, ws, write_if_changed):
         dict(kind="fn", name="find_height_after_window_fast"),
         dict(kind="fn", name="find_height_after_window_slow"),
     ]))
+    emit("client_c28.rs",
+         slice_file(repo, "node/src/p2p/header_ex/client.rs", [
+             dict(kind="fn", name="decode_and_verify_responses"),
+         ]) + slice_file(repo, utl, [
+             dict(kind="trait", name="HeaderRequestExt"),
+             dict(kind="impl", impl=r"impl HeaderRequestExt for HeaderRequest"),
+             dict(kind="trait", name="HeaderResponseExt"),
+             dict(kind="impl", impl=r"impl HeaderResponseExt for HeaderResponse"),
+         ]))
     emit("validator_set_c03.rs",
          slice_file(repo, "types/src/trust_level.rs", [
              dict(kind="struct", name="TrustLevelRatio"),
